@@ -64,6 +64,12 @@ where
         unsafe { &mut *self.iter.get() }
     }
 
+    /// Marks the iteration as completed: the wrapped iterator has reported its end.
+    #[inline(always)]
+    pub(crate) fn complete(&self) {
+        self.completed.store(true, atomic::Ordering::SeqCst);
+    }
+
     #[inline(always)]
     pub(crate) fn progress_yielded_counter(&self, num_yielded: usize) -> usize {
         self.yielded_counter.fetch_and_add(num_yielded)
@@ -187,9 +193,13 @@ where
                 .collect::<Vec<_>>();
             drop(guard);
 
+            if buffer.len() < n {
+                // the wrapped iterator reported its end: the end is final, also for an iterator that is not fused
+                self.complete();
+            }
+
             match buffer.len() {
                 0 => {
-                    self.completed.store(true, atomic::Ordering::SeqCst);
                     let older_count = self.progress_yielded_counter(n);
                     assert_eq!(older_count, begin_idx);
                     None
